@@ -857,6 +857,47 @@ def mean_parts(res, tier, okx):
     return {"cases": len(cases), "rewritten": len(rows), "convolutions per MEAN (4 = four or more)": dict(nconv)}
 
 
+def pad_concats(res, tier, okx):
+    """validation of convert_pad_to_concat: a PAD along the batch axis or the channels becomes a concatenation whose parts -
+    constants holding the zero point in front, the source, constants behind - add up to the output along that axis; along
+    the batch axis every part is one batch (one copy writes one batch). Offsets of the parts: props/C01.v axis_parts_cover"""
+    import tempfile
+    n = 80 if tier == "quick" else 1200
+    rng = random.Random("c01padc/%d" % vlib.seed())
+    cases = [[1, rng.randrange(1, 6), rng.randrange(1, 6), rng.choice([1, 3, 8, 16]), rng.choice([0, 3]), rng.randrange(0, 4), rng.randrange(0, 4)] for _ in range(n)]
+    cases = [c for c in cases if c[5] + c[6] > 0]
+    tmp = tempfile.mkdtemp(prefix="c01padc_", dir=vlib.BUILD)
+    cj, oj = os.path.join(tmp, "cases.json"), os.path.join(tmp, "out.json")
+    json.dump(cases, open(cj, "w"))
+    p = subprocess.run([vlib.PY, os.path.join(vlib.ROOT, "tools", "rewrite_worker.py"), cj, oj, "padconcat"], env=vlib.py_env({"VERIF_TMP": tmp}),
+                       capture_output=True, text=True, timeout=3000)
+    if p.returncode != 0 or not os.path.exists(oj):
+        res.violation({"machinery": "rewrite worker (padconcat)"}, {"stderr": p.stderr[-1500:]},
+                      "C01: convert_pad_to_concat could not be run on generated PAD operators", no_input=True)
+        return {"cases": 0}
+    impl = json.load(open(oj))
+    shutil.rmtree(tmp, ignore_errors=True)
+    model = models.run("axis_offsets", [[q[0] for q in o["parts"]] if o["converted"] else [0] for o in impl]) if okx else []
+    bad = 0
+    for c, o, m in zip(cases, impl, model):
+        nb, h, w, ch, axis, front, behind = c
+        if axis == 0:
+            want = [[1, 0, 1]] * front + [[nb, 1, 1]] + [[1, 0, 1]] * behind
+        else:
+            want = ([[front, 0, 1]] if front else []) + [[ch, 1, 1]] + ([[behind, 0, 1]] if behind else [])
+        total = (nb if axis == 0 else ch) + front + behind
+        ok = bool(o["converted"]) and o["axis"] == axis and o["parts"] == want and o["out"] == total and \
+            (m[-1] + o["parts"][-1][0] == total if o["converted"] else False)
+        if not ok and bad < 5:
+            bad += 1
+            res.violation({"kind": "pad_concat", "case": c},
+                          {"case [n, h, w, c, axis, front, behind]": c, "implementation": o, "parts wanted [extent, is source, holds zero point]": want,
+                           "model offsets of the implementation's parts": m},
+                          "C01: convert_pad_to_concat on a PAD of %d + %d along axis %d: the parts of the concatenation are not zero-point constants "
+                          "and the source adding up to the output (one batch per part along the batch axis)" % (front, behind, axis))
+    return {"cases": len(cases)}
+
+
 def run(tier):
     res = vlib.Result("C01", tier, "other")
     b = vlib.build_property("C01")
@@ -873,6 +914,7 @@ def run(tier):
     rw_cov["tconv_paddings"] = tconv_paddings(res, tier, okm and b["ok"])
     rw_cov["conv_paddings"] = conv_paddings(res, tier, okm and b["ok"])
     rw_cov["mean_parts"] = mean_parts(res, tier, okm and b["ok"])
+    rw_cov["pad_concats"] = pad_concats(res, tier, okm and b["ok"])
     n = 470 if tier == "quick" else 3400
     max_macs = 1200000 if tier == "quick" else 30000000
     rng = random.Random("c01/%d" % vlib.seed())
